@@ -1,394 +1,394 @@
 (* The `Parser` struct of crates/apollo-parser/src/parser/mod.rs and its primitives, as a state monad over
-   `outcome`.  The lexer the parser owns is the list of items it has not pulled yet (the stream is a pure
+   `poutcome`.  The lexer the parser owns is the list of items it has not pulled yet (the stream is a pure
    function of the input, Lex/); `self.lexer.clone()` look-ahead is a pure look-ahead on that list. *)
 From ApolloVerif Require Import Base.Chars Lex.Item Parse.Outcome Parse.Builder Parse.Limits.
 
 (* Token { kind, data, index } *)
-Record tok := { tk : tkind; td : str; ti : N }.
+Record ptoken := { tok_kind : tkind; tok_data : str; tok_index : N }.
 
 (* PendingToken *)
-Inductive pend :=
-| PIgnored (t : tok)
-| PError (data : str).
+Inductive ppend :=
+| PendIgnored (t : ptoken)
+| PendError (data : str).
 
 (* crate::Error, reduced to what the properties observe: limit error or not, and the index.
    (Error::limit / Error::eof / Error::with_loc; messages and data are not modelled.) *)
-Inductive pclass := PLimit | PSyntax.
+Inductive pclass := PcLimit | PcSyntax.
 Record perror := { pe_class : pclass; pe_index : N }.
 
 Record pstate := {
-  st_items : list item   (* what self.lexer will still yield; [] = the iterator returns None *);
-  st_cur : option tok   (* current_token *);
-  st_builder : builder;
-  st_pending : list pend   (* in source order *);
-  st_errors : list perror   (* REVERSED (most recent first) *);
-  st_rec : tracker   (* recursion_limit *);
-  st_accept : bool   (* accept_errors *);
-  st_pulled : N   (* number of items pulled from self.lexer = lexer.limit_tracker.high *);
-  st_dbg : bool   (* debug_assertions on? (constant during a run) *);
-  st_dropped : list tok   (* GHOST (no behaviour depends on it): tokens popped and never given to the builder, REVERSED *)
+  ps_items : list item   (* what self.lexer will still yield; [] = the iterator returns None *);
+  ps_cur : option ptoken   (* current_token *);
+  ps_builder : pbuilder;
+  ps_pending : list ppend   (* in source order *);
+  ps_errors : list perror   (* REVERSED (most recent first) *);
+  ps_rec : ptracker   (* recursion_limit *);
+  ps_accept : bool   (* accept_errors *);
+  ps_pulled : N   (* number of items pulled from self.lexer = lexer.limit_tracker.high *);
+  ps_dbg : bool   (* debug_assertions on? (constant during a run) *);
+  ps_dropped : list ptoken   (* GHOST (no behaviour depends on it): tokens popped and never given to the pbuilder, REVERSED *)
 }.
 
-Definition set_items v s := {| st_items := v; st_cur := st_cur s; st_builder := st_builder s; st_pending := st_pending s; st_errors := st_errors s; st_rec := st_rec s; st_accept := st_accept s; st_pulled := st_pulled s; st_dbg := st_dbg s; st_dropped := st_dropped s |}.
-Definition set_cur v s := {| st_items := st_items s; st_cur := v; st_builder := st_builder s; st_pending := st_pending s; st_errors := st_errors s; st_rec := st_rec s; st_accept := st_accept s; st_pulled := st_pulled s; st_dbg := st_dbg s; st_dropped := st_dropped s |}.
-Definition set_builder v s := {| st_items := st_items s; st_cur := st_cur s; st_builder := v; st_pending := st_pending s; st_errors := st_errors s; st_rec := st_rec s; st_accept := st_accept s; st_pulled := st_pulled s; st_dbg := st_dbg s; st_dropped := st_dropped s |}.
-Definition set_pending v s := {| st_items := st_items s; st_cur := st_cur s; st_builder := st_builder s; st_pending := v; st_errors := st_errors s; st_rec := st_rec s; st_accept := st_accept s; st_pulled := st_pulled s; st_dbg := st_dbg s; st_dropped := st_dropped s |}.
-Definition set_errors v s := {| st_items := st_items s; st_cur := st_cur s; st_builder := st_builder s; st_pending := st_pending s; st_errors := v; st_rec := st_rec s; st_accept := st_accept s; st_pulled := st_pulled s; st_dbg := st_dbg s; st_dropped := st_dropped s |}.
-Definition set_rec v s := {| st_items := st_items s; st_cur := st_cur s; st_builder := st_builder s; st_pending := st_pending s; st_errors := st_errors s; st_rec := v; st_accept := st_accept s; st_pulled := st_pulled s; st_dbg := st_dbg s; st_dropped := st_dropped s |}.
-Definition set_accept v s := {| st_items := st_items s; st_cur := st_cur s; st_builder := st_builder s; st_pending := st_pending s; st_errors := st_errors s; st_rec := st_rec s; st_accept := v; st_pulled := st_pulled s; st_dbg := st_dbg s; st_dropped := st_dropped s |}.
-Definition set_pulled v s := {| st_items := st_items s; st_cur := st_cur s; st_builder := st_builder s; st_pending := st_pending s; st_errors := st_errors s; st_rec := st_rec s; st_accept := st_accept s; st_pulled := v; st_dbg := st_dbg s; st_dropped := st_dropped s |}.
-Definition set_dropped v s := {| st_items := st_items s; st_cur := st_cur s; st_builder := st_builder s; st_pending := st_pending s; st_errors := st_errors s; st_rec := st_rec s; st_accept := st_accept s; st_pulled := st_pulled s; st_dbg := st_dbg s; st_dropped := v |}.
+Definition ps_set_items v s := {| ps_items := v; ps_cur := ps_cur s; ps_builder := ps_builder s; ps_pending := ps_pending s; ps_errors := ps_errors s; ps_rec := ps_rec s; ps_accept := ps_accept s; ps_pulled := ps_pulled s; ps_dbg := ps_dbg s; ps_dropped := ps_dropped s |}.
+Definition ps_set_cur v s := {| ps_items := ps_items s; ps_cur := v; ps_builder := ps_builder s; ps_pending := ps_pending s; ps_errors := ps_errors s; ps_rec := ps_rec s; ps_accept := ps_accept s; ps_pulled := ps_pulled s; ps_dbg := ps_dbg s; ps_dropped := ps_dropped s |}.
+Definition ps_set_builder v s := {| ps_items := ps_items s; ps_cur := ps_cur s; ps_builder := v; ps_pending := ps_pending s; ps_errors := ps_errors s; ps_rec := ps_rec s; ps_accept := ps_accept s; ps_pulled := ps_pulled s; ps_dbg := ps_dbg s; ps_dropped := ps_dropped s |}.
+Definition ps_set_pending v s := {| ps_items := ps_items s; ps_cur := ps_cur s; ps_builder := ps_builder s; ps_pending := v; ps_errors := ps_errors s; ps_rec := ps_rec s; ps_accept := ps_accept s; ps_pulled := ps_pulled s; ps_dbg := ps_dbg s; ps_dropped := ps_dropped s |}.
+Definition ps_set_errors v s := {| ps_items := ps_items s; ps_cur := ps_cur s; ps_builder := ps_builder s; ps_pending := ps_pending s; ps_errors := v; ps_rec := ps_rec s; ps_accept := ps_accept s; ps_pulled := ps_pulled s; ps_dbg := ps_dbg s; ps_dropped := ps_dropped s |}.
+Definition ps_set_rec v s := {| ps_items := ps_items s; ps_cur := ps_cur s; ps_builder := ps_builder s; ps_pending := ps_pending s; ps_errors := ps_errors s; ps_rec := v; ps_accept := ps_accept s; ps_pulled := ps_pulled s; ps_dbg := ps_dbg s; ps_dropped := ps_dropped s |}.
+Definition ps_set_accept v s := {| ps_items := ps_items s; ps_cur := ps_cur s; ps_builder := ps_builder s; ps_pending := ps_pending s; ps_errors := ps_errors s; ps_rec := ps_rec s; ps_accept := v; ps_pulled := ps_pulled s; ps_dbg := ps_dbg s; ps_dropped := ps_dropped s |}.
+Definition ps_set_pulled v s := {| ps_items := ps_items s; ps_cur := ps_cur s; ps_builder := ps_builder s; ps_pending := ps_pending s; ps_errors := ps_errors s; ps_rec := ps_rec s; ps_accept := ps_accept s; ps_pulled := v; ps_dbg := ps_dbg s; ps_dropped := ps_dropped s |}.
+Definition ps_set_dropped v s := {| ps_items := ps_items s; ps_cur := ps_cur s; ps_builder := ps_builder s; ps_pending := ps_pending s; ps_errors := ps_errors s; ps_rec := ps_rec s; ps_accept := ps_accept s; ps_pulled := ps_pulled s; ps_dbg := ps_dbg s; ps_dropped := v |}.
 
 (* Parser::new(input).recursion_limit(rl) [.token_limit(tl): already in `items`] *)
-Definition init_state (dbg : bool) (rl : N) (items : list item) : pstate :=
-  {| st_items := items; st_cur := None; st_builder := builder_new; st_pending := []; st_errors := [];
-     st_rec := tracker_new rl; st_accept := true; st_pulled := 0; st_dbg := dbg; st_dropped := [] |}.
+Definition p_init_state (dbg : bool) (rl : N) (items : list item) : pstate :=
+  {| ps_items := items; ps_cur := None; ps_builder := pb_new; ps_pending := []; ps_errors := [];
+     ps_rec := ptracker_new rl; ps_accept := true; ps_pulled := 0; ps_dbg := dbg; ps_dropped := [] |}.
 
 (* ---- the monad ---- *)
-Definition M (A : Type) := pstate -> outcome (A * pstate).
-Definition ret {A} (a : A) : M A := fun s => Ok (a, s).
-Definition bind {A B} (m : M A) (f : A -> M B) : M B :=
+Definition PM (A : Type) := pstate -> poutcome (A * pstate).
+Definition p_ret {A} (a : A) : PM A := fun s => POk (a, s).
+Definition p_bind {A B} (m : PM A) (f : A -> PM B) : PM B :=
   fun s => match m s with
-           | Ok (a, s') => f a s'
-           | Panic w => Panic w
-           | OutOfFuel => OutOfFuel
+           | POk (a, s') => f a s'
+           | PPanic w => PPanic w
+           | POutOfFuel => POutOfFuel
            end.
-Definition panic {A} (w : pwhy) : M A := fun _ => Panic w.
-Definition out_of_fuel {A} : M A := fun _ => OutOfFuel.
-Definition get : M pstate := fun s => Ok (s, s).
-Definition modify (f : pstate -> pstate) : M unit := fun s => Ok (tt, f s).
-Definition lift_b (f : builder -> outcome builder) : M unit :=
-  fun s => match f (st_builder s) with
-           | Ok b => Ok (tt, set_builder b s)
-           | Panic w => Panic w
-           | OutOfFuel => OutOfFuel
+Definition p_panic {A} (w : pwhy) : PM A := fun _ => PPanic w.
+Definition p_out_of_fuel {A} : PM A := fun _ => POutOfFuel.
+Definition p_get : PM pstate := fun s => POk (s, s).
+Definition p_modify (f : pstate -> pstate) : PM unit := fun s => POk (tt, f s).
+Definition p_lift_b (f : pbuilder -> poutcome pbuilder) : PM unit :=
+  fun s => match f (ps_builder s) with
+           | POk b => POk (tt, ps_set_builder b s)
+           | PPanic w => PPanic w
+           | POutOfFuel => POutOfFuel
            end.
 
 Declare Scope pm_scope.
 Delimit Scope pm_scope with pm.
-Notation "x <- m ;; k" := (bind m (fun x => k)) (at level 61, m at next level, right associativity) : pm_scope.
-Notation "m ;; k" := (bind m (fun _ => k)) (at level 61, right associativity) : pm_scope.
+Notation "x <- m ;; k" := (p_bind m (fun x => k)) (at level 61, m at next level, right associativity) : pm_scope.
+Notation "m ;; k" := (p_bind m (fun _ => k)) (at level 61, right associativity) : pm_scope.
 Open Scope pm_scope.
 
-Definition when (b : bool) (m : M unit) : M unit := if b then m else ret tt.
+Definition p_when (b : bool) (m : PM unit) : PM unit := if b then m else p_ret tt.
 
 (* ---- token kinds ---- *)
-Definition is_ignored_kind (k : tkind) : bool :=
-  match k with Comment | Whitespace | Comma => true | _ => false end.
-Definition is_trivia_kind (k : tkind) : bool :=
-  match k with Comment | Whitespace => true | _ => false end.
+Definition p_is_ignored_kind (k : tkind) : bool :=
+  match k with TkComment | TkWhitespace | TkComma => true | _ => false end.
+Definition p_is_trivia_kind (k : tkind) : bool :=
+  match k with TkComment | TkWhitespace => true | _ => false end.
 
-Fixpoint str_eqb (a b : str) : bool :=
+Fixpoint p_str_eqb (a b : str) : bool :=
   match a, b with
   | [], [] => true
-  | x :: a, y :: b => (x =? y) && str_eqb a b
+  | x :: a, y :: b => (x =? y) && p_str_eqb a b
   | _, _ => false
   end.
 
-Definition tok_eqb (a b : tok) : bool :=
-  tkind_eqb (tk a) (tk b) && str_eqb (td a) (td b) && (ti a =? ti b).
-Definition otok_eqb (a b : option tok) : bool :=
+Definition ptoken_eqb (a b : ptoken) : bool :=
+  tkind_eqb (tok_kind a) (tok_kind b) && p_str_eqb (tok_data a) (tok_data b) && (tok_index a =? tok_index b).
+Definition poptoken_eqb (a b : option ptoken) : bool :=
   match a, b with
   | None, None => true
-  | Some x, Some y => tok_eqb x y
+  | Some x, Some y => ptoken_eqb x y
   | _, _ => false
   end.
 
-(* ---- next_token: pull items until a token; lexer errors are recorded on the way ---- *)
+(* ---- p_next_token: pull items until a token; lexer errors are recorded on the way ---- *)
 
-(* the effect of one Err(err) item in next_token's loop: the data is queued for the tree; the error is
+(* the effect of one IErr(p_err) item in next_token's loop: the data is queued for the ptree; the error is
    pushed only while accept_errors holds; a limit error clears accept_errors afterwards *)
-Definition lexer_error_effect (c : eclass) (data : str) (index : N) (s : pstate) : pstate :=
-  let s1 := match data with [] => s | _ => set_pending (st_pending s ++ [PError data]) s end in
-  let e := {| pe_class := match c with ELimit => PLimit | ELex => PSyntax end; pe_index := index |} in
-  let s2 := if st_accept s1 then set_errors (e :: st_errors s1) s1 else s1 in
-  match c with ELimit => set_accept false s2 | ELex => s2 end.
+Definition p_lexer_error_effect (c : eclass) (data : str) (index : N) (s : pstate) : pstate :=
+  let s1 := match data with [] => s | _ => ps_set_pending (ps_pending s ++ [PendError data]) s end in
+  let e := {| pe_class := match c with ELimit => PcLimit | ELex => PcSyntax end; pe_index := index |} in
+  let s2 := if ps_accept s1 then ps_set_errors (e :: ps_errors s1) s1 else s1 in
+  match c with ELimit => ps_set_accept false s2 | ELex => s2 end.
 
-Definition count_pull (s : pstate) : pstate := set_pulled (st_pulled s + 1) s.
+Definition p_count_pull (s : pstate) : pstate := ps_set_pulled (ps_pulled s + 1) s.
 
-Fixpoint next_token_loop (items : list item) (s : pstate) : option tok * pstate :=
+Fixpoint p_next_token_loop (items : list item) (s : pstate) : option ptoken * pstate :=
   match items with
-  | [] => (None, set_items [] s)
-  | Tok k d i :: r => (Some {| tk := k; td := d; ti := i |}, set_items r (count_pull s))
-  | Err c d i :: r => next_token_loop r (lexer_error_effect c d i (count_pull s))
+  | [] => (None, ps_set_items [] s)
+  | ITok k d i :: r => (Some {| tok_kind := k; tok_data := d; tok_index := i |}, ps_set_items r (p_count_pull s))
+  | IErr c d i :: r => p_next_token_loop r (p_lexer_error_effect c d i (p_count_pull s))
   end.
 
-Definition next_token : M (option tok) := fun s => Ok (next_token_loop (st_items s) s).
+Definition p_next_token : PM (option ptoken) := fun s => POk (p_next_token_loop (ps_items s) s).
 
-(* peek_token: fill current_token if empty, return it *)
-Definition peek_token : M (option tok) :=
-  fun s => match st_cur s with
-           | Some t => Ok (Some t, s)
-           | None => let '(o, s') := next_token_loop (st_items s) s in Ok (o, set_cur o s')
+(* p_peek_token: fill current_token if empty, return it *)
+Definition p_peek_token : PM (option ptoken) :=
+  fun s => match ps_cur s with
+           | Some t => POk (Some t, s)
+           | None => let '(o, s') := p_next_token_loop (ps_items s) s in POk (o, ps_set_cur o s')
            end.
 
-Definition current : M (option tok) := peek_token.
-Definition peek : M (option tkind) := o <- peek_token ;; ret (option_map tk o).
-Definition peek_data : M (option str) := o <- peek_token ;; ret (option_map td o).
+Definition p_current : PM (option ptoken) := p_peek_token.
+Definition p_peek : PM (option tkind) := o <- p_peek_token ;; p_ret (option_map tok_kind o).
+Definition p_peek_data : PM (option str) := o <- p_peek_token ;; p_ret (option_map tok_data o).
 
 (* at(token) *)
-Definition at_ (k : tkind) : M bool :=
-  o <- peek ;; ret (match o with Some t => tkind_eqb t k | None => false end).
+Definition p_at (k : tkind) : PM bool :=
+  o <- p_peek ;; p_ret (match o with Some t => tkind_eqb t k | None => false end).
 
-(* peek_n_inner(n): current_token, then a CLONE of the lexer; errors dropped; Whitespace, Comment and
-   Comma filtered out; .nth(n - 1).  Pure. *)
-Fixpoint nth_significant (n : nat) (l : list item) : option tok :=
+(* p_peek_n_inner(n): current_token, then a CLONE of the lexer; errors dropped; TkWhitespace, TkComment and
+   TkComma filtered out; .nth(n - 1).  Pure. *)
+Fixpoint p_nth_significant (n : nat) (l : list item) : option ptoken :=
   match l with
   | [] => None
-  | Err _ _ _ :: r => nth_significant n r
-  | Tok k d i :: r =>
-      if is_ignored_kind k then nth_significant n r
+  | IErr _ _ _ :: r => p_nth_significant n r
+  | ITok k d i :: r =>
+      if p_is_ignored_kind k then p_nth_significant n r
       else match n with
-           | O => Some {| tk := k; td := d; ti := i |}
-           | S m => nth_significant m r
+           | O => Some {| tok_kind := k; tok_data := d; tok_index := i |}
+           | S m => p_nth_significant m r
            end
   end.
 
-Definition peek_n_inner (n : nat) : M (option tok) :=
+Definition p_peek_n_inner (n : nat) : PM (option ptoken) :=
   fun s => match n with
-           | O => Panic PeekNZero
+           | O => PPanic PnPeekNZero
            | S m =>
-               let l := match st_cur s with
-                        | Some t => Tok (tk t) (td t) (ti t) :: st_items s
-                        | None => st_items s
+               let l := match ps_cur s with
+                        | Some t => ITok (tok_kind t) (tok_data t) (tok_index t) :: ps_items s
+                        | None => ps_items s
                         end in
-               Ok (nth_significant m l, s)
+               POk (p_nth_significant m l, s)
            end.
-Definition peek_token_n (n : nat) : M (option tok) := peek_n_inner n.
-Definition peek_n (n : nat) : M (option tkind) := o <- peek_n_inner n ;; ret (option_map tk o).
-Definition peek_data_n (n : nat) : M (option str) := o <- peek_token_n n ;; ret (option_map td o).
+Definition p_peek_token_n (n : nat) : PM (option ptoken) := p_peek_n_inner n.
+Definition p_peek_n (n : nat) : PM (option tkind) := o <- p_peek_n_inner n ;; p_ret (option_map tok_kind o).
+Definition p_peek_data_n (n : nat) : PM (option str) := o <- p_peek_token_n n ;; p_ret (option_map tok_data o).
 
-(* pop: take current_token, else pull one; panics when the lexer is finished *)
-Definition pop : M tok :=
-  fun s => match st_cur s with
-           | Some t => Ok (t, set_cur None s)
-           | None => match next_token_loop (st_items s) s with
-                     | (Some t, s') => Ok (t, s')
-                     | (None, _) => Panic PopFinished
+(* p_pop: take current_token, else pull one; panics p_when the lexer is finished *)
+Definition p_pop : PM ptoken :=
+  fun s => match ps_cur s with
+           | Some t => POk (t, ps_set_cur None s)
+           | None => match p_next_token_loop (ps_items s) s with
+                     | (Some t, s') => POk (t, s')
+                     | (None, _) => PPanic PnPopFinished
                      end
            end.
 
-(* push_token *)
-Definition push_token (k : skind) (t : tok) : M unit :=
-  modify (fun s => set_builder (b_token k (td t) (st_builder s)) s).
+(* p_push_token *)
+Definition p_push_token (k : skind) (t : ptoken) : PM unit :=
+  p_modify (fun s => ps_set_builder (pb_token k (tok_data t) (ps_builder s)) s).
 
-(* skip_ignored: while let Some(Comment | Whitespace | Comma) = self.peek() { pending.push(Ignored(self.pop())) }
-   As structural recursion on the remaining items: `skip_loop` is the loop from a state whose
-   current_token is None (peek pulls; an ignored token is popped again at once). *)
-Fixpoint skip_loop (items : list item) (s : pstate) : pstate :=
+(* p_skip_ignored: while let Some(TkComment | TkWhitespace | TkComma) = self.peek() { pending.push(Ignored(self.pop())) }
+   As structural recursion on the remaining items: `p_skip_loop` is the loop from a state whose
+   current_token is None (p_peek pulls; an ignored token is popped again at once). *)
+Fixpoint p_skip_loop (items : list item) (s : pstate) : pstate :=
   match items with
-  | [] => set_items [] s
-  | Err c d i :: r => skip_loop r (lexer_error_effect c d i (count_pull s))
-  | Tok k d i :: r =>
-      let t := {| tk := k; td := d; ti := i |} in
-      if is_ignored_kind k
-      then skip_loop r (let s1 := count_pull s in set_pending (st_pending s1 ++ [PIgnored t]) s1)
-      else set_cur (Some t) (set_items r (count_pull s))
+  | [] => ps_set_items [] s
+  | IErr c d i :: r => p_skip_loop r (p_lexer_error_effect c d i (p_count_pull s))
+  | ITok k d i :: r =>
+      let t := {| tok_kind := k; tok_data := d; tok_index := i |} in
+      if p_is_ignored_kind k
+      then p_skip_loop r (let s1 := p_count_pull s in ps_set_pending (ps_pending s1 ++ [PendIgnored t]) s1)
+      else ps_set_cur (Some t) (ps_set_items r (p_count_pull s))
   end.
 
-Definition skip_ignored : M unit :=
-  fun s => match st_cur s with
+Definition p_skip_ignored : PM unit :=
+  fun s => match ps_cur s with
            | Some t =>
-               if is_ignored_kind (tk t)
-               then let s1 := set_cur None (set_pending (st_pending s ++ [PIgnored t]) s) in
-                    Ok (tt, skip_loop (st_items s1) s1)
-               else Ok (tt, s)
-           | None => Ok (tt, skip_loop (st_items s) s)
+               if p_is_ignored_kind (tok_kind t)
+               then let s1 := ps_set_cur None (ps_set_pending (ps_pending s ++ [PendIgnored t]) s) in
+                    POk (tt, p_skip_loop (ps_items s1) s1)
+               else POk (tt, s)
+           | None => POk (tt, p_skip_loop (ps_items s) s)
            end.
 
-(* push_ignored: flush `pending` into the current node *)
-Fixpoint push_pending_list (l : list pend) (b : builder) : outcome builder :=
+(* p_push_ignored: flush `pending` into the p_current p_node *)
+Fixpoint p_push_pending_list (l : list ppend) (b : pbuilder) : poutcome pbuilder :=
   match l with
-  | [] => Ok b
-  | PIgnored t :: r =>
-      match tk t with
-      | Comment => push_pending_list r (b_token COMMENT (td t) b)
-      | Whitespace => push_pending_list r (b_token WHITESPACE (td t) b)
-      | Comma => push_pending_list r (b_token COMMA (td t) b)
-      | _ => Panic PushIgnoredUnreachable
+  | [] => POk b
+  | PendIgnored t :: r =>
+      match tok_kind t with
+      | TkComment => p_push_pending_list r (pb_token SK_COMMENT (tok_data t) b)
+      | TkWhitespace => p_push_pending_list r (pb_token SK_WHITESPACE (tok_data t) b)
+      | TkComma => p_push_pending_list r (pb_token SK_COMMA (tok_data t) b)
+      | _ => PPanic PnPushIgnoredUnreachable
       end
-  | PError d :: r => push_pending_list r (b_token ERROR d b)
+  | PendError d :: r => p_push_pending_list r (pb_token SK_ERROR d b)
   end.
 
-Definition push_ignored : M unit :=
-  fun s => match push_pending_list (st_pending s) (st_builder s) with
-           | Ok b => Ok (tt, set_builder b (set_pending [] s))
-           | Panic w => Panic w
-           | OutOfFuel => OutOfFuel
+Definition p_push_ignored : PM unit :=
+  fun s => match p_push_pending_list (ps_pending s) (ps_builder s) with
+           | POk b => POk (tt, ps_set_builder b (ps_set_pending [] s))
+           | PPanic w => PPanic w
+           | POutOfFuel => POutOfFuel
            end.
 
-(* eat *)
-Definition eat (k : skind) : M unit :=
-  push_ignored ;;
-  c <- current ;;
+(* p_eat *)
+Definition p_eat (k : skind) : PM unit :=
+  p_push_ignored ;;
+  c <- p_current ;;
   match c with
-  | None => ret tt
-  | Some _ => t <- pop ;; push_token k t
+  | None => p_ret tt
+  | Some _ => t <- p_pop ;; p_push_token k t
   end.
 
-(* bump *)
-Definition bump (k : skind) : M unit := eat k ;; skip_ignored.
+(* p_bump *)
+Definition p_bump (k : skind) : PM unit := p_eat k ;; p_skip_ignored.
 
-(* push_err *)
-Definition push_err (e : perror) : M unit :=
-  modify (fun s => if st_accept s then set_errors (e :: st_errors s) s else s).
+(* p_push_err *)
+Definition p_push_err (e : perror) : PM unit :=
+  p_modify (fun s => if ps_accept s then ps_set_errors (e :: ps_errors s) s else s).
 
-Definition syntax_error_at (t : tok) : perror := {| pe_class := PSyntax; pe_index := ti t |}.
+Definition p_syntax_error_at (t : ptoken) : perror := {| pe_class := PcSyntax; pe_index := tok_index t |}.
 
-(* limit_err *)
-Definition limit_err : M unit :=
-  c <- current ;;
+(* p_limit_err *)
+Definition p_limit_err : PM unit :=
+  c <- p_current ;;
   match c with
-  | None => ret tt
+  | None => p_ret tt
   | Some t =>
-      push_err {| pe_class := PLimit; pe_index := ti t |} ;;
-      modify (set_accept false)
+      p_push_err {| pe_class := PcLimit; pe_index := tok_index t |} ;;
+      p_modify (ps_set_accept false)
   end.
 
-(* err_at_token *)
-Definition err_at_token (t : tok) : M unit := push_err (syntax_error_at t).
+(* p_err_at_token *)
+Definition p_err_at_token (t : ptoken) : PM unit := p_push_err (p_syntax_error_at t).
 
-(* err *)
-Definition err : M unit :=
-  c <- current ;;
+(* p_err *)
+Definition p_err : PM unit :=
+  c <- p_current ;;
   match c with
-  | None => ret tt
-  | Some t => push_err (syntax_error_at t)
+  | None => p_ret tt
+  | Some t => p_push_err (p_syntax_error_at t)
   end.
 
-(* err_and_pop *)
-Definition err_and_pop : M unit :=
-  push_ignored ;;
-  c <- current ;;
+(* p_err_and_pop *)
+Definition p_err_and_pop : PM unit :=
+  p_push_ignored ;;
+  c <- p_current ;;
   match c with
-  | None => ret tt
+  | None => p_ret tt
   | Some _ =>
-      t <- pop ;;
-      push_token ERROR t ;;
-      push_err (syntax_error_at t) ;;
-      skip_ignored
+      t <- p_pop ;;
+      p_push_token SK_ERROR t ;;
+      p_push_err (p_syntax_error_at t) ;;
+      p_skip_ignored
   end.
 
-(* expect *)
-Definition expect (token : tkind) (kind : skind) : M unit :=
-  c <- current ;;
+(* p_expect *)
+Definition p_expect (token : tkind) (kind : skind) : PM unit :=
+  c <- p_current ;;
   match c with
-  | None => ret tt
+  | None => p_ret tt
   | Some t =>
-      a <- at_ token ;;
-      if a then bump kind else push_err (syntax_error_at t)
+      a <- p_at token ;;
+      if a then p_bump kind else p_push_err (p_syntax_error_at t)
   end.
 
-(* start_node: the NodeGuard it returns is modelled by `node` below *)
-Definition start_node (k : skind) : M unit :=
-  push_ignored ;;
-  modify (fun s => set_builder (b_start_node k (st_builder s)) s) ;;
-  skip_ignored.
+(* p_start_node: the NodeGuard it returns is modelled by `p_node` below *)
+Definition p_start_node (k : skind) : PM unit :=
+  p_push_ignored ;;
+  p_modify (fun s => ps_set_builder (pb_start_node k (ps_builder s)) s) ;;
+  p_skip_ignored.
 
 (* NodeGuard::drop *)
-Definition finish_node : M unit := lift_b b_finish_node.
+Definition p_finish_node : PM unit := p_lift_b pb_finish_node.
 
 (* let _g = p.start_node(kind); body; (scope exit, including early `return`s: drop(_g)) *)
-Definition node {A} (k : skind) (body : M A) : M A :=
-  start_node k ;; r <- body ;; finish_node ;; ret r.
+Definition p_node {A} (k : skind) (body : PM A) : PM A :=
+  p_start_node k ;; r <- body ;; p_finish_node ;; p_ret r.
 
-(* checkpoint_node *)
-Definition checkpoint_node : M nat :=
-  push_ignored ;; s <- get ;; ret (b_checkpoint (st_builder s)).
+(* p_checkpoint_node *)
+Definition p_checkpoint_node : PM nat :=
+  p_push_ignored ;; s <- p_get ;; p_ret (pb_checkpoint (ps_builder s)).
 
-(* Checkpoint::wrap_node (the guard: finish_node at scope exit) *)
-Definition wrap_node (cp : nat) (k : skind) : M unit := lift_b (b_start_node_at cp k).
+(* Checkpoint::p_wrap_node (the guard: p_finish_node at scope exit) *)
+Definition p_wrap_node (cp : nat) (k : skind) : PM unit := p_lift_b (pb_start_node_at cp k).
 
 (* recursion_limit.check_and_increment() / decrement() *)
-Definition rec_check_and_increment : M bool :=
-  fun s => match tracker_check_and_increment (st_rec s) with
-           | Ok (b, t) => Ok (b, set_rec t s)
-           | Panic w => Panic w
-           | OutOfFuel => OutOfFuel
+Definition p_rec_check_and_increment : PM bool :=
+  fun s => match ptracker_check_and_increment (ps_rec s) with
+           | POk (b, t) => POk (b, ps_set_rec t s)
+           | PPanic w => PPanic w
+           | POutOfFuel => POutOfFuel
            end.
-Definition rec_decrement : M unit :=
-  fun s => match tracker_decrement (st_rec s) with
-           | Ok t => Ok (tt, set_rec t s)
-           | Panic w => Panic w
-           | OutOfFuel => OutOfFuel
+Definition p_rec_decrement : PM unit :=
+  fun s => match ptracker_decrement (ps_rec s) with
+           | POk t => POk (tt, ps_set_rec t s)
+           | PPanic w => PPanic w
+           | POutOfFuel => POutOfFuel
            end.
 
 (* The five recursion-guarded sites all have the shape
      if p.recursion_limit.check_and_increment() { <on_reached>; return .. }
      let x = <body>; p.recursion_limit.decrement(); <k x> *)
-Definition rec_guard {A B} (on_reached : M B) (body : M A) (k : A -> M B) : M B :=
-  reached <- rec_check_and_increment ;;
+Definition p_rec_guard {A B} (on_reached : PM B) (body : PM A) (k : A -> PM B) : PM B :=
+  reached <- p_rec_check_and_increment ;;
   if reached then on_reached
-  else x <- body ;; rec_decrement ;; k x.
+  else x <- body ;; p_rec_decrement ;; k x.
 
 (* debug_assert!(before != self.current_token) *)
-Definition debug_assert_advanced (before : option tok) : M unit :=
-  fun s => if st_dbg s && otok_eqb before (st_cur s) then Panic DebugAssert else Ok (tt, s).
+Definition p_debug_assert_advanced (before : option ptoken) : PM unit :=
+  fun s => if ps_dbg s && poptoken_eqb before (ps_cur s) then PPanic PnDebugAssert else POk (tt, s).
 
-(* peek_while, with the closure's captured mutable variable as an accumulator `acc`.
+(* p_peek_while, with the closure's captured mutable g_variable as an accumulator `acc`.
    run returns (acc', continue?) : true = ControlFlow::Continue, false = Break. *)
-Fixpoint peek_while_acc {S} (fuel : nat) (run : S -> tkind -> M (S * bool)) (acc : S) : M S :=
+Fixpoint p_peek_while_acc {Acc} (fuel : nat) (run : Acc -> tkind -> PM (Acc * bool)) (acc : Acc) : PM Acc :=
   match fuel with
-  | O => out_of_fuel
-  | Datatypes.S f =>
-      o <- peek ;;
+  | O => p_out_of_fuel
+  | S f =>
+      o <- p_peek ;;
       match o with
-      | None => ret acc
+      | None => p_ret acc
       | Some kind =>
-          s0 <- get ;;
+          s0 <- p_get ;;
           r <- run acc kind ;;
           let '(acc', cont) := r in
-          if cont then debug_assert_advanced (st_cur s0) ;; peek_while_acc f run acc'
-          else ret acc'
+          if cont then p_debug_assert_advanced (ps_cur s0) ;; p_peek_while_acc f run acc'
+          else p_ret acc'
       end
   end.
 
-Definition peek_while (fuel : nat) (run : tkind -> M bool) : M unit :=
-  peek_while_acc fuel (fun _ k => c <- run k ;; ret (tt, c)) tt ;; ret tt.
+Definition p_peek_while (fuel : nat) (run : tkind -> PM bool) : PM unit :=
+  p_peek_while_acc fuel (fun _ k => c <- run k ;; p_ret (tt, c)) tt ;; p_ret tt.
 
-(* peek_while_kind *)
-Fixpoint peek_while_kind_acc {S} (fuel : nat) (expect_ : tkind) (run : S -> M S) (acc : S) : M S :=
+(* p_peek_while_kind *)
+Fixpoint p_peek_while_kind_acc {Acc} (fuel : nat) (expect_ : tkind) (run : Acc -> PM Acc) (acc : Acc) : PM Acc :=
   match fuel with
-  | O => out_of_fuel
-  | Datatypes.S f =>
-      o <- peek ;;
+  | O => p_out_of_fuel
+  | S f =>
+      o <- p_peek ;;
       match o with
-      | None => ret acc
+      | None => p_ret acc
       | Some kind =>
-          if negb (tkind_eqb kind expect_) then ret acc
+          if negb (tkind_eqb kind expect_) then p_ret acc
           else
-            s0 <- get ;;
+            s0 <- p_get ;;
             acc' <- run acc ;;
-            debug_assert_advanced (st_cur s0) ;;
-            peek_while_kind_acc f expect_ run acc'
+            p_debug_assert_advanced (ps_cur s0) ;;
+            p_peek_while_kind_acc f expect_ run acc'
       end
   end.
 
-Definition peek_while_kind (fuel : nat) (expect_ : tkind) (run : M unit) : M unit :=
-  peek_while_kind_acc fuel expect_ (fun _ => run) tt.
+Definition p_peek_while_kind (fuel : nat) (expect_ : tkind) (run : PM unit) : PM unit :=
+  p_peek_while_kind_acc fuel expect_ (fun _ => run) tt.
 
-(* trailing_tokens_are_errors: skip_ignored(); while !matches!(peek(), None | Some(Eof)) { err_and_pop(msg) };
-   push_ignored() *)
-Fixpoint trailing_loop (fuel : nat) : M unit :=
+(* p_trailing_tokens_are_errors: p_skip_ignored(); while !matches!(p_peek(), None | Some(TkEof)) { p_err_and_pop(msg) };
+   p_push_ignored() *)
+Fixpoint p_trailing_loop (fuel : nat) : PM unit :=
   match fuel with
-  | O => out_of_fuel
-  | Datatypes.S f =>
-      o <- peek ;;
+  | O => p_out_of_fuel
+  | S f =>
+      o <- p_peek ;;
       match o with
-      | None | Some Eof => ret tt
-      | Some _ => err_and_pop ;; trailing_loop f
+      | None | Some TkEof => p_ret tt
+      | Some _ => p_err_and_pop ;; p_trailing_loop f
       end
   end.
-Definition trailing_tokens_are_errors (fuel : nat) : M unit :=
-  skip_ignored ;; trailing_loop fuel ;; push_ignored.
+Definition p_trailing_tokens_are_errors (fuel : nat) : PM unit :=
+  p_skip_ignored ;; p_trailing_loop fuel ;; p_push_ignored.
 
-(* GHOST: record that token t was popped and will never reach the builder *)
-Definition ghost_dropped (t : tok) : M unit := modify (fun s => set_dropped (t :: st_dropped s) s).
+(* GHOST: record that token t was popped and will never reach the pbuilder *)
+Definition p_ghost_dropped (t : ptoken) : PM unit := p_modify (fun s => ps_set_dropped (t :: ps_dropped s) s).
 
-(* parse_separated_list *)
-Definition parse_separated_list (fuel : nat) (separator : tkind) (separator_syntax : skind) (run : M unit)
-  : M unit :=
-  o <- peek ;;
-  when (match o with Some k => tkind_eqb k separator | None => false end) (bump separator_syntax) ;;
+(* p_parse_separated_list *)
+Definition p_parse_separated_list (fuel : nat) (separator : tkind) (separator_syntax : skind) (run : PM unit)
+  : PM unit :=
+  o <- p_peek ;;
+  p_when (match o with Some k => tkind_eqb k separator | None => false end) (p_bump separator_syntax) ;;
   run ;;
-  peek_while_kind fuel separator (bump separator_syntax ;; run).
+  p_peek_while_kind fuel separator (p_bump separator_syntax ;; run).
